@@ -38,6 +38,95 @@ class HarnessError(BaseException):
 
 
 # --------------------------------------------------------------------------
+# locks created by the library under test become scheduler-aware
+# --------------------------------------------------------------------------
+CURRENT = None  # the _Sim of the run executing in this process (None in a template)
+
+
+class SimLock:
+    """Stand-in for threading.Lock / RLock objects that *the library under test*
+    creates.  A real lock held by a pre-empted client would block the next
+    client while it holds the baton (a deadlock made by the simulator); this
+    one hands the baton on instead.  Exactly one client runs at any time, so the
+    state needs no atomicity of its own."""
+
+    _reentrant = False
+
+    def __init__(self):
+        self._owner = None
+        self._count = 0
+
+    def _me(self):
+        sim = CURRENT
+        return (sim.cur if sim is not None and sim.cur is not None else threading.get_ident()), sim
+
+    def acquire(self, blocking=True, timeout=-1):
+        me, sim = self._me()
+        if self._reentrant and self._owner is not None and self._owner is me:
+            self._count += 1
+            return True
+        while self._owner is not None:
+            if not blocking:
+                return False
+            sched = getattr(sim, "sched", None) if sim is not None else None
+            if sched is None or not isinstance(me, Client):
+                raise HarnessError("library lock contended outside a scheduled run")
+            sim.lock_waits += 1
+            me.blocked_on = self
+            sched.switch(None)
+        self._owner = me
+        self._count = 1
+        return True
+
+    def release(self):
+        if self._owner is None:
+            raise RuntimeError("release unlocked lock")
+        self._count -= 1
+        if self._count > 0:
+            return
+        self._owner = None
+        sim = CURRENT
+        if sim is not None and getattr(sim, "sched", None) is not None:
+            for c in sim.sched.clients:
+                if c.blocked_on is self:
+                    c.blocked_on = None
+
+    def locked(self):
+        return self._owner is not None
+
+    __enter__ = acquire
+
+    def __exit__(self, *a):
+        self.release()
+
+    def _at_fork_reinit(self):
+        self._owner = None
+        self._count = 0
+
+
+class SimRLock(SimLock):
+    _reentrant = True
+
+
+def _patch_lock_factories():
+    """threading.Lock()/RLock() called from a tucan module yields a SimLock."""
+    real_lock, real_rlock = threading.Lock, threading.RLock
+
+    def _from_library():
+        f = sys._getframe(2)
+        return str(f.f_globals.get("__name__", "")).startswith("tucan")
+
+    def Lock():
+        return SimLock() if _from_library() else real_lock()
+
+    def RLock(*a, **kw):
+        return SimRLock() if _from_library() else real_rlock(*a, **kw)
+
+    threading.Lock = Lock
+    threading.RLock = RLock
+
+
+# --------------------------------------------------------------------------
 # binding to the tree under test (done once in the template, before forking)
 # --------------------------------------------------------------------------
 class T:
@@ -70,6 +159,8 @@ def bind(repo):
     import networkx.algorithms.shortest_paths.weighted  # noqa: F401
     import networkx.algorithms.shortest_paths.generic  # noqa: F401
     import igraph  # noqa: F401
+
+    _patch_lock_factories()
     import tucan
     import tucan.io
     import tucan.io.molfile_reader
@@ -405,11 +496,31 @@ class _Sim:
         self.cur = None  # client holding the baton
         self.tmpdir = None
         self.fs_opens = 0
+        self.fs_writes = 0
+        self.lock_waits = 0
+        self.sched = None
         self.sw_sig = hashlib.sha256()
         self.switches = 0
         self.conflict_pairs = set()
         self.fingerprints = set()
         self.dropped_ids = set()
+
+    def materialise(self, path, text):
+        """The simulated file also exists on a real tmpfs (for code that stats or
+        opens it without going through the seam); its timestamps come from the
+        simulated clock at the granularity of the simulated file system."""
+        real = os.path.join(self.tmpdir, os.path.basename(path))
+        with builtins.open(real, "w", newline="") as f:
+            f.write(text)
+        gran = float(self.spec.get("fs_mtime_gran") or 1e-9)
+        t = max(0.0, self.clock.now(self.gstep))
+        ns = int((t // gran) * gran * 1e9) if gran > 1e-9 else int(t * 1e9)
+        ns = min(ns, 253402300799 * 10**9)
+        try:
+            os.utime(real, ns=(ns, ns))
+        except (OSError, OverflowError):
+            pass
+        return real
 
     # event log -----------------------------------------------------------
     def ev(self, *e):
@@ -447,7 +558,8 @@ class _Sim:
         if fault and fault["at"] == "open":
             self.fire_fault("io_error", f"open:{fault['err']}")
             raise OSError(getattr(errno, fault["err"]), os.strerror(getattr(errno, fault["err"])), "/sim/" + base)
-        tid = self.spec["files"].get("/sim/" + base)
+        ov = cl.fs_overlay if cl is not None else {}
+        tid = ov["/sim/" + base] if "/sim/" + base in ov else self.spec["files"].get("/sim/" + base)
         if tid is None:
             raise FileNotFoundError(errno.ENOENT, os.strerror(errno.ENOENT), "/sim/" + base)
         return _SimFile(self, p, self.spec["texts"][tid], fault)
@@ -476,6 +588,8 @@ class Client:
         self.abort_delivered = False
         self.io_fault = None
         self.io_fired = False
+        self.fs_overlay = {}  # path -> text id, files this client has (re)written
+        self.blocked_on = None  # SimLock this client waits for
         self.finished = False
         self.ops_done = 0
         self.error = None
@@ -501,7 +615,7 @@ class Sched:
         self.max_op_steps = int(spec.get("max_op_steps", 5_000_000))
 
     def runnable(self):
-        live = [c for c in self.clients if not c.finished]
+        live = [c for c in self.clients if not c.finished and c.blocked_on is None]
         if self.stall is not None and len(live) > 1:
             others = [c for c in self.clients if c.name != self.stall]
             if any(c.ops_done * 2 < len(c.ops) for c in others if not c.finished):
@@ -548,7 +662,7 @@ class Sched:
         cur = sim.cur
         nxt, b = self.pick()
         if nxt is None:
-            raise HarnessError("no runnable client while one is running")
+            raise HarnessError("deadlock: every unfinished client waits for a lock of the library under test")
         self.remaining = b
         if nxt is cur:
             if self.recorded and self.recorded[-1][0] == cur.name:
@@ -580,6 +694,9 @@ class Sched:
         cl.finished = True
         nxt, b = self.pick()
         if nxt is None:
+            for c in self.clients:
+                if not c.finished:
+                    c.error = "deadlock: client still waits for a lock of the library under test when all others have finished"
             self.done_lock.release()
             return
         self.remaining = b
@@ -695,7 +812,7 @@ def exec_op(sim, cl, i, traced):
     spec = sim.spec
     op = cl.ops[i]
     kind = op["op"]
-    key = model.op_key(op, cl.keys, spec)
+    key = model.op_key(op, cl.keys, spec, cl.fs_overlay, cl.ops)
     cl.keys.append(key)
     base = op
     bi = i
@@ -757,6 +874,18 @@ def exec_op(sim, cl, i, traced):
                 res = _call(sim, cl, T.write, argobj, bool(base.get("calc")))
             else:
                 res = _call(sim, cl, T.permute, argobj, base["seed"])
+        elif bkind == "edit":
+            argobj = _arg_value(cl, base["arg"])
+            if argobj is MISSING:
+                rec["st"] = "skipped"
+            else:
+                res = _do_edit(sim, cl, i, base, argobj)
+                argobj = MISSING  # the caller's own edit: no argument-unchanged demand
+        elif bkind == "fs_write":
+            sim.materialise(base["path"], spec["texts"][base["text"]])
+            cl.fs_overlay[base["path"]] = base["text"]
+            sim.fs_writes += 1
+            rec["st"] = "harness"
         elif bkind == "mutate":
             _do_mutate(sim, cl, i, base)
             rec["st"] = "harness"
@@ -900,6 +1029,62 @@ def exec_op(sim, cl, i, traced):
     return rec
 
 
+def _do_edit(sim, cl, i, op, g):
+    """The caller makes a variant of a molecule it owns: other charges, bond
+    orders or coordinates on the same atoms and bonds (a copy, or in place).  The
+    unique x coordinate (atom tracer) is left alone."""
+    inplace = bool(op.get("inplace"))
+    h = g if inplace else g.copy()
+    r = Random(op["x"])
+    how = op["how"]
+    nodes = list(h.nodes)
+    edges = list(h.edges)
+    Y = getattr(T.tucan.graph_attributes, "Y_COORD", "y_coord")
+    Z = getattr(T.tucan.graph_attributes, "Z_COORD", "z_coord")
+    if how in ("chg", "all"):
+        for n in nodes:
+            if r.random() < 0.5:
+                h.nodes[n][T.CHG] = r.choice([-2, -1, 1, 2, 3])
+            else:
+                h.nodes[n].pop(T.CHG, None)
+    if how in ("bond", "all"):
+        for u, v in edges:
+            h.edges[u, v][T.BOND_TYPE] = r.choice([1, 2, 3, 4])
+    if how in ("coords", "all"):
+        for n in nodes:
+            h.nodes[n][Y] = round(r.uniform(-9, 9), 4)
+            h.nodes[n][Z] = round(r.uniform(-9, 9), 4)
+    if inplace:
+        j = op["arg"]
+        cl.retired.add(j)
+        cl.vals[j] = MISSING
+        _check_relatives(sim, cl, i, j)
+    return h
+
+
+def _check_relatives(sim, cl, i, j):
+    """After the caller edited the object of op j: the argument it was computed
+    from and the results computed from it must still equal their snapshots."""
+    jb = model.base_op(cl.ops, j)
+    rel = []
+    if "arg" in jb and jb["op"] in ("canon", "permute"):
+        rel.append((jb["arg"], jb["op"]))
+    for k in range(min(len(cl.vals), len(cl.ops))):
+        if k == j:
+            continue
+        kb = model.base_op(cl.ops, k)
+        if kb.get("arg") == j and kb["op"] in ("canon", "permute"):
+            rel.append((k, kb["op"]))
+    for k, viaop in rel:
+        if k in cl.retired or cl.vals[k] is MISSING or cl.snaps[k] is None:
+            continue
+        d = snap_diff(cl.snaps[k], cl.vals[k])
+        if d:
+            prop = "C12" if viaop == "canon" else "C16"
+            sim.violation(prop, "result_aliases_argument", cl, i, viaop, cl.keys[k], f"editing op#{j}'s object changed op#{k}'s object: {d}")
+            cl.snaps[k] = snapshot(cl.vals[k])
+
+
 def _do_mutate(sim, cl, i, op):
     """The caller edits an object it owns (a result or an argument); afterwards the
     objects it was derived from / that were derived from it must be unchanged."""
@@ -940,25 +1125,7 @@ def _do_mutate(sim, cl, i, op):
     else:
         g.graph["caller_note"] = "edited"
     cl.retired.add(j)
-    # relatives: the argument j was computed from, and results computed from j
-    jb = model.base_op(cl.ops, j)
-    rel = []
-    if "arg" in jb and jb["op"] in ("canon", "permute"):
-        rel.append((jb["arg"], jb["op"]))
-    for k in range(len(cl.vals)):
-        if k == j or k >= len(cl.ops):
-            continue
-        kb = model.base_op(cl.ops, k)
-        if kb.get("arg") == j and kb["op"] in ("canon", "permute"):
-            rel.append((k, kb["op"]))
-    for k, viaop in rel:
-        if k in cl.retired or cl.vals[k] is MISSING or cl.snaps[k] is None:
-            continue
-        d = snap_diff(cl.snaps[k], cl.vals[k])
-        if d:
-            prop = "C12" if viaop == "canon" else "C16"
-            sim.violation(prop, "result_aliases_argument", cl, i, viaop, cl.keys[k], f"editing op#{j}'s object changed op#{k}'s object: {d}")
-            cl.snaps[k] = snapshot(cl.vals[k])
+    _check_relatives(sim, cl, i, j)
 
 
 # --------------------------------------------------------------------------
@@ -968,7 +1135,9 @@ def run_spec(spec):
     """Execute one spec in this (forked, pristine) process; returns the record."""
     if not T.bound:
         raise HarnessError("engine not bound to a tree")
+    global CURRENT
     sim = _Sim(spec)
+    CURRENT = sim
     sim.ok_parses = 0
     orig_import = builtins.__import__
     wcl = None
@@ -981,13 +1150,12 @@ def run_spec(spec):
     sim.tmpdir = f"/dev/shm/tucansim-{os.getpid()}"
     os.makedirs(sim.tmpdir, exist_ok=True)
     try:
-        for path, tid in spec.get("files", {}).items():
-            with builtins.open(os.path.join(sim.tmpdir, os.path.basename(path)), "w", newline="") as f:
-                f.write(spec["texts"][tid])
-        T.reader_mod.open = sim.sim_open
-        T.writer_mod.datetime = _make_fake_datetime(sim)
         if spec.get("clock_frozen"):
             sim.clock.frozen = True
+        for path, tid in sorted(spec.get("files", {}).items()):
+            sim.materialise(path, spec["texts"][tid])
+        T.reader_mod.open = sim.sim_open
+        T.writer_mod.datetime = _make_fake_datetime(sim)
         def guarded_import(*a, **kw):
             cl = sim.cur
             if cl is None:
@@ -1016,6 +1184,7 @@ def run_spec(spec):
         sched = Sched(sim, clients, spec)
         modes = T.file_modes.table(spec.get("profile") == "wide")
         sched.modes = modes
+        sim.sched = sched
         sim.gtrace = make_tracers(sim, sched, modes)
         if spec.get("stall") is not None and len(clients) > 1:
             sim.faults["stall"] = 1
@@ -1053,8 +1222,10 @@ def run_spec(spec):
             th.start()
         sched.start()
         sched.done_lock.acquire()
-        for th in threads:
-            th.join()
+        for th, c in zip(threads, clients):
+            if c.finished:
+                th.join()
+        sim.sched = None
         gc.disable()
     finally:
         builtins.__import__ = orig_import
@@ -1099,4 +1270,6 @@ def run_spec(spec):
         "sim_seconds": sim.gstep * STEP_SECONDS,
         "clock_reads": sim.clock.reads,
         "fs_opens": sim.fs_opens,
+        "fs_writes": sim.fs_writes,
+        "lock_waits": sim.lock_waits,
     }
